@@ -57,6 +57,7 @@ type cronEvent struct {
 type cronScenario struct {
 	Epoch      string      `json:"epoch"`
 	HorizonMin int         `json:"horizonMin"`
+	ByRename   bool        `json:"byRename,omitempty"` // half of the operator's additions and edits arrive by rename
 	Polling    bool        `json:"polling"` // inotify unavailable: the daemon's polling fallback watches the directory
 	Dags       []*cronDag  `json:"dags"`
 	Events     []cronEvent `json:"events"`
@@ -153,6 +154,7 @@ func genCronScenario(tp *simrt.Tape, thorough bool) *cronScenario {
 		sc.HorizonMin = pick(tp, 15, 40, 90, 180, 400)
 	}
 	sc.Polling = chance(tp, 1, 5)
+	sc.ByRename = chance(tp, 1, 2)
 	nd := 1 + tp.Draw(simrt.SGen, 3)
 	for i := 0; i < nd; i++ {
 		d := &cronDag{File: []string{"nightly", "report two", "etl"}[i], Form: pick(tp, "string", "string", "list", "map")}
@@ -363,7 +365,17 @@ func cronsim(t *testing.T, tp *simrt.Tape, opts RunOpts) *Outcome {
 				tl.files[i] = append(tl.files[i], fileVer{from: time.Now()})
 				return
 			}
-			_ = simos.WriteFile(p, []byte(d.yaml(start)), 0o644)
+			if sc.ByRename && tp.Chance(simrt.SGen, 1, 2) {
+				// delivered the way deployment tools and many editors do it: written elsewhere, then moved
+				// into place (the watcher sees one "create", no "write")
+				tmp := "/sim/staging/" + d.File + ".yaml.tmp"
+				_ = simos.MkdirAll("/sim/staging", 0o755)
+				_ = simos.WriteFile(tmp, []byte(d.yaml(start)), 0o644)
+				_ = simos.Rename(tmp, p)
+				w.Probe("definition_delivered_by_rename")
+			} else {
+				_ = simos.WriteFile(p, []byte(d.yaml(start)), 0o644)
+			}
 			tl.files[i] = append(tl.files[i], fileVer{from: time.Now(), start: parseAll(start), stop: parseAll(d.Stop), rest: parseAll(d.Restart), valid: true})
 		}
 		setSusp := func(i int, on bool) {
